@@ -171,7 +171,7 @@ def units():
                          ('size__v_c', ['C04', 'C20'], 3), ('empty__v_c', ['C04', 'C20'], 4), ('begin__v_c', ['C04', 'C11', 'C20'], 5), ('end__v_c', ['C04', 'C11', 'C20'], 6),
                          ('insert__rE', ['C04', 'C05', 'C11', 'C02', 'C09'], 0), ('insert__rrE', ['C04', 'C05', 'C11', 'C02', 'C09'], 0),
                          ('erase__rE', ['C04', 'C11', 'C02'], 0), ('erase__pE_penable_if_is_same_pE_pE__value__type', ['C04', 'C11', 'C02'], 0),
-                         ('clear__v', ['C04', 'C02'], 0)]:
+                         ('clear__v', ['C04', 'C02'], 0), ('swap__r' + SS, ['C04', 'C05', 'C02'], 0)]:
         add('ss.%s.NR' % (m.split('__')[0] + ('_' + m.split('__')[1][:3] if m.startswith(('insert', 'erase')) else '')), SS + '__' + m, props, 3, 'StaticVectorBase_E_u8', 'u8', 'ElemNR',
             throws_reachable=m.startswith('insert'))
         us[-1]['cfg'] = 'sets17'
